@@ -57,6 +57,16 @@ def K(fi: FuncInfo, role: str) -> str:
     return f"{fi.relpath}::{fi.qualname}::{role}"
 
 
+def verdict(res: Result, r: Run, rule: str, key: str, ok: bool, detail: str, where: str = "", kind: str = "structural", nontrivial: bool = True) -> None:
+    """A negative verdict needs the whole method to have been followed: with repo calls / statements the executor could not
+    follow, the construct is undecided instead."""
+    blind = [f"call of {e.data['targets'][0].split('::')[-1]} not followed" for e in r.of("opaque")] + list(r.notes)
+    if not ok and blind:
+        res.undecide(rule, key, f"{detail} - but the analysis of {r.fi.qualname} is incomplete: {blind[0]}", where)
+    else:
+        res.add(rule, key, ok, detail, where, nontrivial=nontrivial, kind=kind)
+
+
 # --------------------------------------------------------------------------- recognisers on terms
 
 
@@ -310,16 +320,16 @@ def check_layer(b: Builder, res: Result) -> None:
             d1 = f"a new layer can be opened while another layer still has no modules: the guard `{show_pc(e.pc)[:140]}` does not consult the stored definitions (a layer counts as pending while its stored module sequence is empty)"
         else:
             d1 = f"a new layer can be opened while another layer still has no modules (guard: `{show_pc(e.pc)[:140]}`)"
-        res.add("C16.R3", K(m, "[no pending layer]"), ok1, d1, e.where, kind="dominance")
+        verdict(res, r, "C16.R3", K(m, "[no pending layer]"), ok1, d1, e.where, kind="dominance")
         ok2 = implies(pcf, f_not(in_store)) and e.data["how"] in ("[]=", "setdefault")
-        res.add("C16.R3", K(m, "[unique name]"), ok2, "a layer name can be defined once" if ok2 else f"a layer name can be defined twice: the second definition replaces the first (guard: `{show_pc(e.pc)[:140]}`)", e.where, kind="dominance")
+        verdict(res, r, "C16.R3", K(m, "[unique name]"), ok2, "a layer name can be defined once" if ok2 else f"a layer name can be defined twice: the second definition replaces the first (guard: `{show_pc(e.pc)[:140]}`)", e.where, kind="dominance")
         v = e.data["value"]
         ok3 = v[0] in ("list", "tuple", "set") and not v[1]
-        res.add("C16.R3", K(m, "[opens empty]"), ok3, "the new layer starts without modules" if ok3 else f"the new layer is opened with `{show(v)[:60]}` instead of an empty definition", e.where, nontrivial=False)
+        verdict(res, r, "C16.R3", K(m, "[opens empty]"), ok3, "the new layer starts without modules" if ok3 else f"the new layer is opened with `{show(v)[:60]}` instead of an empty definition", e.where, nontrivial=False)
     if not evs:
         raise AnalysisError(f"{m.fq}: no write of the new layer")
     if not r.returns:
-        res.add("C16.R3", K(m, "accepts a new name"), False, "layer() never returns normally", kind="structural")
+        verdict(res, r, "C16.R3", K(m, "accepts a new name"), False, "layer() never returns normally", kind="structural")
 
 
 def check_modules_method(b: Builder, res: Result, mname: str, union_param: bool) -> None:
@@ -329,7 +339,7 @@ def check_modules_method(b: Builder, res: Result, mname: str, union_param: bool)
     enc = Enc(b.canon, {p} if union_param else set())
     evs = b.store_events(r)
     if not evs:
-        res.add("C16.R4", K(m, "[stored under the pending layer]"), False, f"{m.qualname} does not store the supplied modules in the layer mapping", f"{m.relpath}:{m.node.lineno}", kind="structural")
+        verdict(res, r, "C16.R4", K(m, "[stored under the pending layer]"), False, f"{m.qualname} does not store the supplied modules in the layer mapping", f"{m.relpath}:{m.node.lineno}", kind="structural")
         return
     pend = b.pending_terms(r)
     for e in evs:
@@ -339,7 +349,7 @@ def check_modules_method(b: Builder, res: Result, mname: str, union_param: bool)
             continue
         one = enc.len_atom(pend[0], 1) if pend else None
         ok = one is not None and implies(pcf, one)
-        res.add(
+        verdict(res, r, 
             "C16.R3",
             K(m, "[exactly one pending layer]"),
             ok,
@@ -349,19 +359,19 @@ def check_modules_method(b: Builder, res: Result, mname: str, union_param: bool)
         )
         key = e.data["key"]
         ok = b.single_pending(key) and e.data["how"] == "[]="
-        res.add("C16.R4", K(m, "[stored under the pending layer]"), ok, "stored under the single pending layer" if ok else f"the modules are stored under `{show(key)[:80]}`, not under the one layer that is waiting for its modules", e.where, kind="structural")
+        verdict(res, r, "C16.R4", K(m, "[stored under the pending layer]"), ok, "stored under the single pending layer" if ok else f"the modules are stored under `{show(key)[:80]}`, not under the one layer that is waiting for its modules", e.where, kind="structural")
         v = e.data["value"]
         if union_param:
-            check_dup_guard(b, res, m, e, p, enc)
-            check_image(b, res, m, e, p, enc)
+            check_dup_guard(b, res, r, m, e, p, enc)
+            check_image(b, res, r, m, e, p, enc)
         else:
             cls = v[1][0][1].rsplit(".", 1)[-1] if v[0] in ("list", "tuple") and len(v[1]) == 1 and v[1][0][0] == "new" else None
             args = [x for x in (v[1][0][2] + tuple(val for _k, val in v[1][0][3]))] if cls else []
             ok = cls == "ModuleNameRegexFilter" and args == [p]
-            res.add("C16.R4", K(m, "[regex filter stored]"), ok, "exactly one regex filter built from the supplied pattern is stored" if ok else f"`{show(v)[:80]}` is not the single regex filter of the supplied pattern", e.where, kind="structural")
+            verdict(res, r, "C16.R4", K(m, "[regex filter stored]"), ok, "exactly one regex filter built from the supplied pattern is stored" if ok else f"`{show(v)[:80]}` is not the single regex filter of the supplied pattern", e.where, kind="structural")
 
 
-def check_dup_guard(b: Builder, res: Result, m: FuncInfo, e: Event, p: Term, enc: Enc) -> None:
+def check_dup_guard(b: Builder, res: Result, r: Run, m: FuncInfo, e: Event, p: Term, enc: Enc) -> None:
     """The store is reached only when no supplied module name is among the identifiers of all stored filters."""
     pcf = enc.pc(e.pc)
     verdicts: list[tuple[str, str]] = []  # ('ok'|'bad'|'unknown', detail)
@@ -373,13 +383,13 @@ def check_dup_guard(b: Builder, res: Result, m: FuncInfo, e: Event, p: Term, enc
     oks = [v for v in verdicts if v[0] == "ok"]
     bads = [v for v in verdicts if v[0] == "bad"]
     if oks:
-        res.add("C16.R3", key, True, oks[0][1], e.where, kind="dominance")
+        verdict(res, r, "C16.R3", key, True, oks[0][1], e.where, kind="dominance")
     elif bads:
-        res.add("C16.R3", key, False, bads[0][1], e.where, kind="dominance")
+        verdict(res, r, "C16.R3", key, False, bads[0][1], e.where, kind="dominance")
     elif verdicts:
         res.undecide("C16.R3", key, verdicts[0][1], e.where)
     else:
-        res.add("C16.R3", key, False, f"no duplicate-module guard dominates the store (it is reached under `{show_pc(e.pc)[:160]}`)", e.where, kind="dominance")
+        verdict(res, r, "C16.R3", key, False, f"no duplicate-module guard dominates the store (it is reached under `{show_pc(e.pc)[:160]}`)", e.where, kind="dominance")
 
 
 def classify_dup(b: Builder, t: Term, pol: bool, p: Term, enc: Enc, pcf) -> tuple[str, str] | None:
@@ -451,7 +461,7 @@ def _membership(gen: tuple, elt: Term | None):
     return None, None, False
 
 
-def check_image(b: Builder, res: Result, m: FuncInfo, e: Event, p: Term, enc: Enc) -> None:
+def check_image(b: Builder, res: Result, r: Run, m: FuncInfo, e: Event, p: Term, enc: Enc) -> None:
     """The stored value is the order-preserving image of the whole normalised list: one name filter per supplied module."""
     v = e.data["value"]
     pcf = enc.pc(e.pc)
@@ -459,12 +469,12 @@ def check_image(b: Builder, res: Result, m: FuncInfo, e: Event, p: Term, enc: En
     core = strip_wrappers(v, ("list", "tuple"))
     if core[0] != "comp" or core[1] not in ("list", "gen"):
         if any(x[0] == "slice" for x in subterms(core)) and mentions(core, p):
-            res.add("C16.R4", key, False, f"`{show(v)[:100]}` stores only a part of the supplied modules", e.where, kind="flow")
+            verdict(res, r, "C16.R4", key, False, f"`{show(v)[:100]}` stores only a part of the supplied modules", e.where, kind="flow")
         else:
             res.undecide("C16.R4", key, f"the stored value `{show(v)[:100]}` is not recognised as one filter per supplied module", e.where)
         return
     if core[1] == "gen" and core is v:
-        res.add("C16.R4", key, False, "a one-shot generator is stored instead of the list of filters", e.where, kind="flow")
+        verdict(res, r, "C16.R4", key, False, "a one-shot generator is stored instead of the list of filters", e.where, kind="flow")
         return
     gens, elt = core[3], core[2]
     problems = []
@@ -491,7 +501,7 @@ def check_image(b: Builder, res: Result, m: FuncInfo, e: Event, p: Term, enc: En
         if cls != "ModuleNameFilter" or args != [bv]:
             problems.append(f"each element is `{show(elt)[:60]}`, not a name filter of the supplied module")
     ok = not problems
-    res.add("C16.R4", key, ok, "one name filter per supplied module, whole normalised list, in order" if ok else "; ".join(problems), e.where, kind="flow")
+    verdict(res, r, "C16.R4", key, ok, "one name filter per supplied module, whole normalised list, in order" if ok else "; ".join(problems), e.where, kind="flow")
 
 
 def value_kind(v: Term) -> str:
@@ -538,7 +548,7 @@ def check_marker(b: Builder, res: Result, names: list[str]) -> None:
                 bad.append((n, e, vk, k))
     if bad:
         n, e, vk, k = bad[0]
-        res.add("C16.R3", key, False, f"pending layers are recognised by comparing with an empty {k}, but {la.name}.{n} stores a {vk} (`{show(e.data['value'])[:60]}`): an empty definition is no longer recognised as pending, so the next layer can be opened", e.where, kind="structural")
+        verdict(res, b.run(n), "C16.R3", key, False, f"pending layers are recognised by comparing with an empty {k}, but {la.name}.{n} stores a {vk} (`{show(e.data['value'])[:60]}`): an empty definition is no longer recognised as pending, so the next layer can be opened", e.where, kind="structural")
     elif unknown:
         n, e, _vk = unknown[0]
         res.undecide("C16.R3", key, f"the kind of the value stored by {la.name}.{n} (`{show(e.data['value'])[:60]}`) is not known, but pending layers are recognised by an equality test with an empty literal", e.where)
@@ -553,7 +563,7 @@ def check_readers(b: Builder, res: Result) -> None:
     p = ("param", m.param_names[1])
     vals = [strip_wrappers(v, ("list", "tuple")) for _pc, v, _h in gi.returns]
     ok = len(vals) == 1 and vals[0] == ("index", b.store, p) and not gi.of("raise")
-    res.add("C16.R4", K(m, "reads the mapping unchanged"), ok, "architecture[layer] returns the stored definition" if ok else f"architecture[layer] returns `{show(vals[0])[:80] if vals else '?'}`, not the stored definition of the layer", f"{m.relpath}:{m.node.lineno}", kind="structural")
+    verdict(res, gi, "C16.R4", K(m, "reads the mapping unchanged"), ok, "architecture[layer] returns the stored definition" if ok else f"architecture[layer] returns `{show(vals[0])[:80] if vals else '?'}`, not the stored definition of the layer", f"{m.relpath}:{m.node.lineno}", kind="structural")
     st = b.run("__str__")
     m = st.fi
     comps = []
@@ -578,7 +588,7 @@ def check_readers(b: Builder, res: Result) -> None:
             if x[0] == "slice" and any(y[0] == "comp" and mentions(y, b.store) for y in subterms(x[1])):
                 problems.append("only a slice of the layers is listed")
     ok = walks_all and not problems and len(st.returns) == 1
-    res.add("C16.R4", K(m, "lists all layers"), ok, "str(architecture) lists every layer with its modules in definition order" if ok else "str(architecture) does not list all layers and modules" + (": " + problems[0] if problems else ""), f"{m.relpath}:{m.node.lineno}", kind="structural")
+    verdict(res, st, "C16.R4", K(m, "lists all layers"), ok, "str(architecture) lists every layer with its modules in definition order" if ok else "str(architecture) does not list all layers and modules" + (": " + problems[0] if problems else ""), f"{m.relpath}:{m.node.lineno}", kind="structural")
 
 
 # --------------------------------------------------------------------------- R2 / R3: LayerRule
@@ -615,7 +625,7 @@ def check_layer_rule(repo: Repo, sx: SymExec, res: Result) -> None:
     arch_none = enc.truth(("cmp", "Is", arch, NONE_T))
     raised = f_or([enc.pc(e.pc) for e in config_raises(bo)])
     ok = equivalent(raised, f_not(arch_none)) and all(implies(enc.pc(e.pc), arch_none) for e in sets)
-    res.add("C16.R3", K(m, "architecture set once"), ok, "a second based_on raises a configuration error and leaves the architecture alone" if ok else f"based_on can replace the architecture of a rule (configuration error raised iff `{_show_f(raised)}`)", f"{m.relpath}:{m.node.lineno}", kind="decision-table")
+    verdict(res, bo, "C16.R3", K(m, "architecture set once"), ok, "a second based_on raises a configuration error and leaves the architecture alone" if ok else f"based_on can replace the architecture of a rule (configuration error raised iff `{_show_f(raised)}`)", f"{m.relpath}:{m.node.lineno}", kind="decision-table")
     # ---- layers_that: architecture first; the attribute that receives the module rule
     lt = F.run("layers_that")
     m = lt.fi
@@ -625,7 +635,7 @@ def check_layer_rule(repo: Repo, sx: SymExec, res: Result) -> None:
     rule = ("attr", SELF, rsets[0].data["attr"])
     raised = f_or([enc.pc(e.pc) for e in config_raises(lt)])
     ok = equivalent(raised, arch_none) and all(implies(enc.pc(e.pc), f_not(arch_none)) for e in rsets)
-    res.add("C16.R3", K(m, "architecture first"), ok, "layers_that requires an architecture" if ok else f"layers_that no longer requires an architecture (configuration error raised iff `{_show_f(raised)}`)", f"{m.relpath}:{m.node.lineno}", kind="decision-table")
+    verdict(res, lt, "C16.R3", K(m, "architecture first"), ok, "layers_that requires an architecture" if ok else f"layers_that no longer requires an architecture (configuration error raised iff `{_show_f(raised)}`)", f"{m.relpath}:{m.node.lineno}", kind="decision-table")
     # ---- the side flag of Rule: the attribute Rule.modules_that() sets to True
     mt = sx.run(public_method(repo, rule_cls, "modules_that"))
     flags = {e.data["attr"] for e in mt.of("setattr") if e.data["obj"] == SELF and e.data["value"] == ("const", True)}
@@ -679,13 +689,13 @@ def check_are_named(repo: Repo, F: RuleFacts, res: Result, arch: Term, rule: Ter
             detail = f"are_named does not extend the subject of the wrapped rule on the subject side (configuration error raised iff `{_show_f(raised)}`)"
         else:
             detail = f"are_named raises a configuration error iff `{_show_f(raised)}` (given a started rule); required: on the subject side iff a subject is already present (`{show(subj[0])}`) or a list is given, never on the object side"
-        res.add("C16.R2", key, False, detail, f"{m.relpath}:{m.node.lineno}", kind="decision-table")
+        verdict(res, r, "C16.R2", key, False, detail, f"{m.relpath}:{m.node.lineno}", kind="decision-table")
         return
-    res.add("C16.R2", key, True, "a configuration error is raised exactly when, on the subject side, a subject is already present or a list is given (truth table over started / side / subject present / argument kind)", f"{m.relpath}:{m.node.lineno}", kind="decision-table")
+    verdict(res, r, "C16.R2", key, True, "a configuration error is raised exactly when, on the subject side, a subject is already present or a list is given (truth table over started / side / subject present / argument kind)", f"{m.relpath}:{m.node.lineno}", kind="decision-table")
     want = hit[1]
     early = [e for e in effects if satisfiable(f_and([enc.pc(e.pc), want]), started)]
     ok = not early and bool(effects)
-    res.add("C16.R2", K(m, "guard before the layer is added"), ok, "the subject guard precedes every change of the wrapped rule" if ok else (f"`{_ev_text(early[0])}` changes the rule before the subject guard has run" if early else "are_named no longer changes the wrapped rule"), early[0].where if early else f"{m.relpath}:{m.node.lineno}", kind="dominance")
+    verdict(res, r, "C16.R2", K(m, "guard before the layer is added"), ok, "the subject guard precedes every change of the wrapped rule" if ok else (f"`{_ev_text(early[0])}` changes the rule before the subject guard has run" if early else "are_named no longer changes the wrapped rule"), early[0].where if early else f"{m.relpath}:{m.node.lineno}", kind="dominance")
 
 
 def _ev_text(e: Event) -> str:
@@ -705,17 +715,17 @@ def check_side_flag(repo: Repo, F: RuleFacts, res: Result, rule: Term, rule_cls:
     lt = F.run("layers_that")
     finals = [h.get((h.get((SELF, rule[2]), rule), flag)) for _pc, _v, h in lt.returns]
     ok = bool(finals) and all(v == ("const", True) for v in finals)
-    res.add("C16.R2", K(lt.fi, "side flag: subject side after layers_that"), ok, "layers_that leaves the wrapped rule on the subject side" if ok else f"after layers_that the side flag `{flag}` of the wrapped rule is `{show(finals[0]) if finals and finals[0] else 'unset'}`, not True: the subject guard of are_named does not fire", f"{lt.fi.relpath}:{lt.fi.node.lineno}", kind="flow")
+    verdict(res, lt, "C16.R2", K(lt.fi, "side flag: subject side after layers_that"), ok, "layers_that leaves the wrapped rule on the subject side" if ok else f"after layers_that the side flag `{flag}` of the wrapped rule is `{show(finals[0]) if finals and finals[0] else 'unset'}`, not True: the subject guard of are_named does not fire", f"{lt.fi.relpath}:{lt.fi.node.lineno}", kind="flow")
     for name in declared_in(repo, lr, "BehaviorBaseSpecification"):
         r = F.run(name)
         w = flag_writes(r)
         ok = not w
-        res.add("C16.R2", K(r.fi, "side flag: untouched by the behaviour word"), ok, f"{name} leaves the subject/object side of the wrapped rule alone" if ok else f"{name} sets the side flag `{flag}` of the wrapped rule to `{show(w[0].data['value'])}`: a further subject layer named after {name}() is no longer rejected by are_named (the flag is read for its truth value)", w[0].where if w else f"{r.fi.relpath}:{r.fi.node.lineno}", kind="flow")
+        verdict(res, r, "C16.R2", K(r.fi, "side flag: untouched by the behaviour word"), ok, f"{name} leaves the subject/object side of the wrapped rule alone" if ok else f"{name} sets the side flag `{flag}` of the wrapped rule to `{show(w[0].data['value'])}`: a further subject layer named after {name}() is no longer rejected by are_named (the flag is read for its truth value)", w[0].where if w else f"{r.fi.relpath}:{r.fi.node.lineno}", kind="flow")
     for name in declared_in(repo, lr, "AccessSpecification"):
         r = F.run(name)
         finals = [h.get((rule, flag)) for _pc, _v, h in r.returns]
         ok = bool(finals) and all(v is not None and v[0] == "const" and not v[1] and v[1] is not None for v in finals)
-        res.add("C16.R2", K(r.fi, "side flag: object side after the access word"), ok, f"{name} switches the wrapped rule to the object side" if ok else f"after {name} the side flag `{flag}` is `{show(finals[0]) if finals and finals[0] else 'unchanged'}`, not False: layers named afterwards are treated as subjects", f"{r.fi.relpath}:{r.fi.node.lineno}", kind="flow")
+        verdict(res, r, "C16.R2", K(r.fi, "side flag: object side after the access word"), ok, f"{name} switches the wrapped rule to the object side" if ok else f"after {name} the side flag `{flag}` is `{show(finals[0]) if finals and finals[0] else 'unchanged'}`, not False: layers named afterwards are treated as subjects", f"{r.fi.relpath}:{r.fi.node.lineno}", kind="flow")
 
 
 # --------------------------------------------------------------------------- entry
